@@ -7,7 +7,7 @@
 EXTENDS Broker
 
 CONSTANTS MaxDepth, FeeChoice, PfLevel, Seeded,
-          Amounts, Qtys, Instants, OrderPids, CashOps
+          Amounts, Qtys, Instants, OrderPids, CashOps, BadQuotes
 
 Fri == 18264                       \* 2020-01-03
 Sat == 18265
@@ -23,6 +23,7 @@ MCInstantsSmall == { At(Fri, 869), At(Fri, 870), At(Fri, 1260), At(Mon, 870) }
 MCQtysSmall == { -3, 1, 2 }
 Ghost      == "PX"                 \* an id that is never created
 MCQuotes   == << [bid |-> 8000, ask |-> 8250], [bid |-> 10500, ask |-> 10750] >>
+MCBadQuotes == << [bid |-> -2250, ask |-> -1750], [bid |-> -250, ask |-> 250] >>
 MCFees     == << [kind |-> "zero", c |-> 0, t |-> 0],
                  [kind |-> "percent", c |-> 16, t |-> 0],
                  [kind |-> "percent", c |-> 125, t |-> 16] >>
@@ -58,8 +59,11 @@ Next ==
   \/ CashOps /\ \E p \in MCPids \cup {Ghost}, a \in Amounts : SubscribePortfolio(p, a)
   \/ CashOps /\ \E p \in MCPids \cup {Ghost}, a \in Amounts : WithdrawPortfolio(p, a)
   \/ \E p \in OrderPids, a \in Assets, q \in Qtys : SubmitOrder(p, a, q)
-  \/ \E t \in Instants : Update(t)
+  \/ \E t \in Instants : QuotesSane /\ Update(t)
   \/ \E a \in Assets, i \in 1..Len(MCQuotes) : PriceMove(a, MCQuotes[i].bid, MCQuotes[i].ask)
+  \* a held asset quoted at a negative / zero mid (corrupt data): the next clock update must be refused as a whole
+  \/ BadQuotes /\ \E a \in Assets, i \in 1..Len(MCBadQuotes) :
+        (\E p \in PSet : a \in DOMAIN pos[p]) /\ PriceMove(a, MCBadQuotes[i].bid, MCBadQuotes[i].ask)
   \/ PfLevel /\ \E p \in MCPids, t \in Instants, a \in {-1000, 250000} : PfSubscribe(p, t, a)
   \/ PfLevel /\ \E p \in MCPids, t \in Instants, a \in {-1000, 250000, 1000500} : PfWithdraw(p, t, a)
   \/ PfLevel /\ \E p \in MCPids, a \in Assets, px \in {-1000, 9125}, t \in Instants : PfMark(p, a, px, t)
